@@ -34,6 +34,7 @@ func checkC02(rep *Report, rng *Rng, tier string) {
 	modelOn = true
 	probeNonUTF8Name(rep)
 	probeBigRootRecord(rep, "C02")
+	probeLongKeys(rep, "C02")
 	rep.Rule = "seeded histories of mutations over 1-3 collections (4 comparators) with Flush at arbitrary positions, collection creation/removal, evictions, and re-opens after which the history continues on the re-opened store; after EVERY step a fresh Store is opened on a copy of the current file image and its full contents (names, keys, values, priorities, totals) are compared with the reference state of the last successful Flush; non-trivial = at least one flush and 8 ops"
 	HistoryLoop(rep, rng, n, func(r *Rng, i int) (RunCfg, []Op, string) {
 		d, ops := genC02(r, i)
@@ -409,6 +410,7 @@ func checkC13(rep *Report, rng *Rng, tier string) {
 				g.PrioMode = 2
 			}
 		}
+		g.Revert = g.FileBacked && i%2 == 1 // FlushRevert rebuilds the collections from the file: same order, same invariants
 		ops := GenHistory(r, g)
 		var out []Op
 		for _, o := range ops {
